@@ -6,11 +6,15 @@ import GomlVerif.Model.Dce
 executable `Bool` functions so that the driver can count how many REAL ANF functions satisfy it
 and print why the others do not.
 
-Stage (a) of the back end plus struct values of stage (b): scalars (unit, bool, the eight integer
-types, string — no float literals) and values of admitted struct types (`goodStructs`: known,
-non-generic, Go field names pairwise distinct, every field a scalar or an admitted struct; user
-structs and the closure-environment structs of lambda lifting alike), arithmetic / comparison /
-logic operators on scalar immediates, struct construction and field access, `let`, `if`, `while`,
+Stage (a) of the back end plus struct and enum values of stage (b): scalars (unit, bool, the eight
+integer types, string — no float literals), values of admitted struct types (`goodStructs`: known,
+non-generic, Go field names pairwise distinct, every field of an admitted type; user structs and the
+closure-environment structs of lambda lifting alike) and of admitted enum types (`goodEnums`: known,
+non-generic, the Go struct names of the variants pairwise distinct, every payload of an admitted
+type; recursive enums included), arithmetic / comparison / logic operators on scalar immediates,
+struct and enum construction, field access (an enum payload only where the enclosing `match` arm
+fixes the variant: the context `K`), `match` on an enum variable (type switch), on a bool / integer /
+string (value switch) and on unit (first arm in place), `let`, `if`, `while`,
 calls to top-level functions of the file that are themselves in the fragment (hence also the
 `apply` functions of closures when called by name), and the printing / string builtins of
 `builtinSig`.  The predicate is a small type checker: every variable is in scope with the type its
@@ -20,10 +24,11 @@ every call and constructor has the right arity and types.
 Besides the source-side check there is a Go-side one, evaluated on the model's own output for the
 function (`goLocalOK`): the names the compiled function declares (`vn x`, `ret<n>`, `cond<n>`) are
 pairwise distinct, none of them is `_`, and none is the Go name of a callee — i.e. `go_ident` and
-the renaming did not merge two names and no temporary captures anything.  File level
+the renaming did not merge two names and no temporary captures anything.  (A type switch re-binds
+its own scrutinee variable; that binding is not a declaration in this sense: `ndDecls`.)  File level
 (`fileOK`): Go function names are pairwise distinct (so that `findFunc` finds the compiled
 function), no user function is spelled like a builtin or like a Go function the runtime calls, the
-set of admitted structs is closed and the emitted file declares each of them with its fields.
+sets of admitted structs and enums are closed and the emitted file declares each of them with its fields.
 -/
 namespace Goml.GoFrag
 open Goml Goml.Go Goml.GoCompile
@@ -36,47 +41,74 @@ def scalarTy : Ty → Bool
   | .string => true
   | _ => false
 
-/-- equality of fragment types (scalars, and struct types by name) -/
+/-- equality of fragment types (scalars, and struct / enum types by name) -/
 def scalarEq : Ty → Ty → Bool
   | .unit, .unit => true
   | .bool, .bool => true
   | .int b s, .int b' s' => b == b' && s == s'
   | .string, .string => true
   | .struct a, .struct b => a == b
+  | .enum a, .enum b => a == b
   | _, _ => false
 
-/-- scalar or a struct type (by name) -/
+/-- scalar or a struct / enum type (by name) -/
 def flatTy : Ty → Bool
   | .struct _ => true
+  | .enum _ => true
   | t => scalarTy t
 
-/-- value types relative to a set `S` of admitted struct names -/
-def valTyS (S : List String) : Ty → Bool
+/-- value types relative to sets `S`, `E` of admitted struct and enum names -/
+def valTyS (S E : List String) : Ty → Bool
   | .struct n => S.contains n
+  | .enum n => E.contains n
   | t => scalarTy t
+
+/-- `_i, _{i+1}, …` (`k` names): the Go field names of a variant struct (and of a tuple struct) -/
+def fieldNames : Nat → Nat → List String
+  | _, 0 => []
+  | i, k + 1 => fieldN i :: fieldNames (i + 1) k
 
 /-- a struct admitted as a value type: known, not generic, Go field names pairwise distinct, every
-    field a scalar or an admitted struct (closure-environment structs are ordinary structs here) -/
-def structLocalOK (env : Env) (S : List String) (n : String) : Bool :=
+    field of an admitted type (closure-environment structs are ordinary structs here) -/
+def structLocalOK (env : Env) (S E : List String) (n : String) : Bool :=
   match env.getStruct n with
-  | some d => d.generics.isEmpty && (d.fields.map fun f => gid f.1).Nodup && d.fields.all (fun f => valTyS S f.2)
+  | some d => d.generics.isEmpty && (d.fields.map fun f => gid f.1).Nodup && d.fields.all (fun f => valTyS S E f.2)
   | none => false
 
-/-- candidate set of admitted structs: iterate "drop the structs that fail the local check" -/
-def refineStructs (env : Env) : Nat → List String → List String
-  | 0, S => S
-  | k + 1, S =>
-    let S' := S.filter (structLocalOK env S)
-    if S'.length == S.length then S else refineStructs env k S'
+/-- the Go struct type of variant `v` of enum `n` -/
+def variantGoName (env : Env) (n v : String) : String := gid (variantStructName env n v)
 
-def goodStructs (env : Env) : List String :=
-  refineStructs env (env.structsLookup.length + 1) (env.structsLookup.map (·.name)).eraseDups
+/-- an enum admitted as a value type: known, not generic, the Go struct names of its variants
+    pairwise distinct (a type switch tells them apart), every payload of an admitted type, the payload
+    field names `_0, _1, …` pairwise distinct -/
+def enumLocalOK (env : Env) (S E : List String) (n : String) : Bool :=
+  match env.getEnum n with
+  | some d => d.generics.isEmpty && (d.variants.map fun v => variantGoName env n v.1).Nodup &&
+      d.variants.all (fun v => v.2.all (valTyS S E) && (fieldNames 0 v.2.length).Nodup)
+  | none => false
+
+/-- candidate sets of admitted structs and enums: iterate "drop the types that fail the local check" -/
+def refineTypes (env : Env) : Nat → List String × List String → List String × List String
+  | 0, T => T
+  | k + 1, T =>
+    let S' := T.1.filter (structLocalOK env T.1 T.2)
+    let E' := T.2.filter (enumLocalOK env T.1 T.2)
+    if S'.length == T.1.length && E'.length == T.2.length then T else refineTypes env k (S', E')
+
+def goodTypes (env : Env) : List String × List String :=
+  refineTypes env (env.structsLookup.length + env.enums.length + 1)
+    ((env.structsLookup.map (·.name)).eraseDups, (env.enums.map (·.name)).eraseDups)
+
+def goodStructs (env : Env) : List String := (goodTypes env).1
+def goodEnums (env : Env) : List String := (goodTypes env).2
 
 /-- the closure property the proofs use (re-checked, not proved of the iteration) -/
-def structsClosed (env : Env) : Bool := (goodStructs env).all (structLocalOK env (goodStructs env))
+def structsClosed (env : Env) : Bool :=
+  (goodStructs env).all (structLocalOK env (goodStructs env) (goodEnums env)) &&
+  (goodEnums env).all (enumLocalOK env (goodStructs env) (goodEnums env))
 
 /-- the value types of the fragment -/
-def valTy (env : Env) (t : Ty) : Bool := valTyS (goodStructs env) t
+def valTy (env : Env) (t : Ty) : Bool := valTyS (goodStructs env) (goodEnums env) t
 
 /-- the emitted file declares the struct with exactly these field names (what a composite literal
     of the type evaluates against) -/
@@ -84,6 +116,16 @@ def structTableOK (env : Env) (F : GFile) (n : String) : Bool :=
   match F.structFields (gid n), env.getStruct n with
   | some decl, some d => decl.map (·.1) == d.fields.map (fun f => gid f.1)
   | _, _ => false
+
+/-- the emitted file declares no struct under the Go name of a variant, or declares it with exactly
+    the payload fields `_0, _1, …` -/
+def enumTableOK (env : Env) (F : GFile) (n : String) : Bool :=
+  match env.getEnum n with
+  | some d => d.variants.all fun v =>
+      match F.structFields (variantGoName env n v.1) with
+      | some decl => decl.map (·.1) == fieldNames 0 v.2.length
+      | none => true
+  | none => false
 
 def intTy : Ty → Bool
   | .int _ _ => true
@@ -96,6 +138,18 @@ def lookupTy (Γ : Ctx) (x : String) : Option Ty :=
   | some p => some p.2
   | none => none
 
+/-- variables whose value is known to be a given variant of its enum (the scrutinee inside the arm
+    a `match` selected) -/
+abbrev KCtx := List (String × Nat)
+
+def lookupK (K : KCtx) (x : String) : Option Nat :=
+  match K.find? (·.1 == x) with
+  | some p => some p.2
+  | none => none
+
+/-- a `let x` hides what was known about an outer `x` -/
+def eraseK (K : KCtx) (x : String) : KCtx := K.filter (fun p => p.1 != x)
+
 /-- a literal whose Go spelling denotes the same value: the annotation is the literal's own type
     and an integer lies in the range of that type (Go wraps the literal, `Sem` does not) -/
 def okPrim (p : Prim) (ty : Ty) : Bool :=
@@ -106,10 +160,24 @@ def okPrim (p : Prim) (ty : Ty) : Bool :=
   | .int b s v, .int b' s' => b == b' && s == s' && Sem.wrap b s v == v
   | _, _ => false
 
-def immOK (Γ : Ctx) : Imm → Bool
+/-- variant `idx` of an admitted enum type: enum name, variant name, payload types -/
+def variantOf (env : Env) (ty : Ty) (idx : Nat) : Option (String × String × List Ty) :=
+  match ty with
+  | .enum n =>
+    if (goodEnums env).contains n then
+      match env.getEnum n with
+      | some d =>
+        match d.variants[idx]? with
+        | some v => some (n, v.1, v.2)
+        | none => none
+      | none => none
+    else none
+  | _ => none
+
+def immOK (env : Env) (Γ : Ctx) : Imm → Bool
   | .var x ty => (match lookupTy Γ x with | some t => scalarEq t ty | none => false)
   | .prim p ty => okPrim p ty
-  | .tag _ _ => false
+  | .tag idx ty => (match variantOf env ty idx with | some v => v.2.2.isEmpty | none => false)
 
 /-- operand types at which a binary operator is in the fragment (`Sem` and `Go.Sem` both define it) -/
 def binDom : BinOp → Ty → Bool
@@ -172,9 +240,9 @@ def builtinNames : List String :=
 def specialCallees : List String :=
   ["array_get", "array_set", "ref", "ref_get", "ref_set", "vec_new", "vec_push", "vec_get", "vec_len", "missing"]
 
-def argsOK (Γ : Ctx) : List Imm → List Ty → Bool
+def argsOK (env : Env) (Γ : Ctx) : List Imm → List Ty → Bool
   | [], [] => true
-  | a :: as, t :: ts => immOK Γ a && scalarEq a.ty t && argsOK Γ as ts
+  | a :: as, t :: ts => immOK env Γ a && scalarEq a.ty t && argsOK env Γ as ts
   | _, _ => false
 
 /-- a call in the fragment: the callee is a name that is not a local, not a special helper, not an
@@ -186,40 +254,103 @@ def callOK (env : Env) (file : AFile) (G : List String) (Γ : Ctx) (f : Imm) (ar
     (lookupTy Γ name).isNone && rn name == name && !specialCallees.contains name &&
     (env.getExternFn name).isNone && !isEntry name &&
     (match builtinSig name with
-     | some (ps, r) => builtinNames.contains name && argsOK Γ args ps && scalarEq ty r
+     | some (ps, r) => builtinNames.contains name && argsOK env Γ args ps && scalarEq ty r
      | none =>
        match file.find? (·.name == name) with
-       | some g => G.contains name && argsOK Γ args (g.params.map (·.2)) && scalarEq ty g.ret
+       | some g => G.contains name && argsOK env Γ args (g.params.map (·.2)) && scalarEq ty g.ret
        | none => false)
   | _ => false
 
+/-- how the heads of the arms of a `match` are read -/
+inductive ArmKind where
+  /-- type switch on the enum variable `x` of type `sty` -/
+  | enumK (x : String) (sty : Ty)
+  /-- value switch on a bool / integer / string of type `sty` -/
+  | valK (sty : Ty)
+
+/-- scrutinee types of a value switch in the fragment -/
+def switchTy : Ty → Bool
+  | .bool => true
+  | .int _ _ => true
+  | .string => true
+  | _ => false
+
+def isSomeD : ADflt → Bool
+  | .none => false
+  | .some _ => true
+
 mutual
 /-- a `CExpr` of the fragment; its value has type `c.annTy` -/
-def fragC (env : Env) (file : AFile) (G : List String) (Γ : Ctx) : CExpr → Bool
-  | .imm i => immOK Γ i
-  | .un op e ty => immOK Γ e && unOK op e.ty ty
-  | .bin op l r ty => immOK Γ l && immOK Γ r && binOK op l.ty r.ty ty
+def fragC (env : Env) (file : AFile) (G : List String) (Γ : Ctx) (K : KCtx) : CExpr → Bool
+  | .imm i => immOK env Γ i
+  | .un op e ty => immOK env Γ e && unOK op e.ty ty
+  | .bin op l r ty => immOK env Γ l && immOK env Γ r && binOK op l.ty r.ty ty
   | .call f args ty => callOK env file G Γ f args ty
   | .constr (.struct sn) args ty =>
     scalarEq ty (.struct sn) && (goodStructs env).contains sn &&
     (match env.getStruct sn with
-     | some d => argsOK Γ args (d.fields.map (·.2))
+     | some d => argsOK env Γ args (d.fields.map (·.2))
+     | none => false)
+  | .constr (.enum tn _ vi) args ty =>
+    scalarEq ty (.enum tn) &&
+    (match variantOf env (.enum tn) vi with
+     | some v => argsOK env Γ args v.2.2
      | none => false)
   | .cget e (.struct sn) idx ty =>
-    immOK Γ e && scalarEq e.ty (.struct sn) && !scalarEq ty .unit &&
+    immOK env Γ e && scalarEq e.ty (.struct sn) &&
     (match cgetField env e (.struct sn) idx with
      | some ft => scalarEq ty ft.2
      | none => false)
+  | .cget e (.enum tn _ vi) idx ty =>
+    -- the operand is a variable known (from the enclosing arm) to hold variant `vi`
+    (match e with
+     | .var x _ => lookupK K x == some vi
+     | _ => false) &&
+    immOK env Γ e && scalarEq e.ty (.enum tn) &&
+    (match variantOf env (.enum tn) vi with
+     | some v => (match v.2.2[idx]? with | some t => scalarEq ty t | none => false)
+     | none => false)
   | .ite c t e ty =>
-    immOK Γ c && scalarEq c.ty .bool && fragA env file G Γ t && fragA env file G Γ e &&
+    immOK env Γ c && scalarEq c.ty .bool && fragA env file G Γ K t && fragA env file G Γ K e &&
     scalarEq (aTy t) ty && scalarEq (aTy e) ty
   | .while c b ty =>
-    fragA env file G Γ c && scalarEq (aTy c) .bool && fragA env file G Γ b && scalarEq (aTy b) .unit && scalarEq ty .unit
+    fragA env file G Γ K c && scalarEq (aTy c) .bool && fragA env file G Γ K b && scalarEq (aTy b) .unit && scalarEq ty .unit
+  | .matchE s arms d ty =>
+    immOK env Γ s && flatTy ty &&
+    (match s.ty with
+     | .enum n =>
+       (match s with
+        | .var x _ => vn x == rn x && (goodEnums env).contains n &&
+            fragArms env file G Γ K (.enumK x (.enum n)) ty arms && fragD env file G Γ K ty d
+        | _ => false)
+     | .unit =>
+       -- the first arm in place (else the default); the other arms are dead
+       if arms.isEmpty then isSomeD d && fragD env file G Γ K ty d else fragFirst env file G Γ K ty arms
+     | sty => switchTy sty && fragArms env file G Γ K (.valK sty) ty arms && fragD env file G Γ K ty d)
   | _ => false
 /-- an `AExpr` of the fragment; its value has type `aTy e` -/
-def fragA (env : Env) (file : AFile) (G : List String) (Γ : Ctx) : AExpr → Bool
-  | .ret c => fragC env file G Γ c
-  | .letE x v b _ => fragC env file G Γ v && fragA env file G ((x, v.annTy) :: Γ) b
+def fragA (env : Env) (file : AFile) (G : List String) (Γ : Ctx) (K : KCtx) : AExpr → Bool
+  | .ret c => fragC env file G Γ K c
+  | .letE x v b _ => fragC env file G Γ K v && fragA env file G ((x, v.annTy) :: Γ) (eraseK K x) b
+/-- the arms of a `match`: heads of the scrutinee's kind, bodies of the result type -/
+def fragArms (env : Env) (file : AFile) (G : List String) (Γ : Ctx) (K : KCtx) (ak : ArmKind) (ty : Ty) : List AArm → Bool
+  | [] => true
+  | .mk lhs body :: rest =>
+    (match ak, lhs with
+     | .enumK x sty, .tag idx tty =>
+       scalarEq tty sty && (variantOf env sty idx).isSome && fragA env file G Γ ((x, idx) :: K) body
+     | .valK sty, .prim p pty => okPrim p pty && scalarEq pty sty && fragA env file G Γ K body
+     | _, _ => false) && scalarEq (aTy body) ty && fragArms env file G Γ K ak ty rest
+/-- unit scrutinee: only the first arm runs -/
+def fragFirst (env : Env) (file : AFile) (G : List String) (Γ : Ctx) (K : KCtx) (ty : Ty) : List AArm → Bool
+  | [] => false
+  | .mk lhs body :: _ =>
+    (match lhs with
+     | .prim .unit .unit => true
+     | _ => false) && fragA env file G Γ K body && scalarEq (aTy body) ty
+def fragD (env : Env) (file : AFile) (G : List String) (Γ : Ctx) (K : KCtx) (ty : Ty) : ADflt → Bool
+  | .none => true
+  | .some e => fragA env file G Γ K e && scalarEq (aTy e) ty
 /-- the type of the value of an `AExpr` (the annotation of its final `CExpr`; the `ty` field of
     `ALet` is the type of the *source* `let`, not of this expression) -/
 def aTy : AExpr → Ty
@@ -255,13 +386,37 @@ def paramCtx (f : AFn) : Ctx := f.params.reverse
 /-- the source-side check of one function -/
 def srcLocalOK (env : Env) (file : AFile) (G : List String) (f : AFn) : Bool :=
   f.params.all (fun p => valTy env p.2) && valTy env f.ret &&
-  fragA env file G (paramCtx f) f.body && scalarEq (aTy f.body) f.ret
+  fragA env file G (paramCtx f) [] f.body && scalarEq (aTy f.body) f.ret
+
+mutual
+/-- every name declared by a `var` in the statements, nested included (`Dce.allDecls` without the
+    bindings of type switches, which re-bind a variable that is already declared) -/
+def ndDecls : List GStmt → List String
+  | [] => []
+  | s :: rest => ndDeclsOf s ++ ndDecls rest
+def ndDeclsOf : GStmt → List String
+  | .varDecl x _ _ => [x]
+  | .ite _ t e => ndDecls t ++ (match e with | some b => ndDecls b | none => [])
+  | .loop b => ndDecls b
+  | .switch _ cs d => ndDeclsCases cs ++ (match d with | some b => ndDecls b | none => [])
+  | .tswitch _ _ cs d => ndDeclsTCases cs ++ (match d with | some b => ndDecls b | none => [])
+  | _ => []
+def ndDeclsCases : List GCase → List String
+  | [] => []
+  | .mk _ b :: rest => ndDecls b ++ ndDeclsCases rest
+def ndDeclsTCases : List GTCase → List String
+  | [] => []
+  | .mk _ b :: rest => ndDecls b ++ ndDeclsTCases rest
+end
+
+/-- parameters and `var` declarations of a compiled function -/
+def ndLocals (f : GFunc) : List String := f.params.map (·.1) ++ ndDecls f.body
 
 /-- the Go-side check of one function, on the model's own output for it -/
 def goLocalOK (env : Env) (st : St) (f : AFn) : Bool :=
   let gf := (compileFn env st f).1
   let locals := Goml.Dce.localsOf gf
-  locals.Nodup && !locals.contains "_" &&
+  (ndLocals gf).Nodup && !locals.contains "_" &&
   (calleesA f.body).all (fun c => !locals.contains (vn c) && vn c != "_")
 
 def localOK (env : Env) (file : AFile) (G : List String) (st : St) (f : AFn) : Bool :=
@@ -284,7 +439,7 @@ def fileOK (env : Env) (file : AFile) (n : Nat) : Bool :=
   (F.funcs.map (·.name)).Nodup && (file.map (·.name)).Nodup &&
   file.all (fun f => !builtinNames.contains f.name) &&
   reservedGoNames.all (fun r => (F.findFunc r).isNone) &&
-  structsClosed env && (goodStructs env).all (structTableOK env F)
+  structsClosed env && (goodStructs env).all (structTableOK env F) && (goodEnums env).all (enumTableOK env F)
 
 /-- `G` is closed: the file-level conditions hold and every member passes the local checks with
     all its callees in `G` -/
@@ -314,28 +469,49 @@ def inGoFragment (env : Env) (file : AFile) (n : Nat) (f : AFn) : Bool :=
 
 /-! ### why a function is outside (reporting only) -/
 
-def immReason (Γ : Ctx) : Imm → Option String
+def tyClass : Ty → String
+  | .tuple _ => "tuple" | .enum _ => "enum" | .struct n => if isClosureEnv n then "closure-env" else "struct"
+  | .dyn _ => "dyn" | .app _ _ => "generic-app" | .array _ _ => "array" | .vec _ => "vec" | .ref _ => "ref"
+  | .func _ _ => "func" | .float _ => "float" | .param _ => "tparam" | .tvar _ => "tvar" | _ => "scalar-mismatch"
+
+def immReason (env : Env) (Γ : Ctx) : Imm → Option String
   | .var x ty =>
     match lookupTy Γ x with
     | none => some "operand:function-or-unbound-name-as-value"
     | some t => if scalarEq t ty then none else some ("type:" ++ tyClass ty)
   | .prim (.float _ _) _ => some "literal:float"
   | .prim p ty => if okPrim p ty then none else some "literal:annotation-or-range"
-  | .tag _ _ => some "type:enum"
-where
-  tyClass : Ty → String
-    | .tuple _ => "tuple" | .enum _ => "enum" | .struct n => if isClosureEnv n then "closure-env" else "struct"
-    | .dyn _ => "dyn" | .app _ _ => "generic-app" | .array _ _ => "array" | .vec _ => "vec" | .ref _ => "ref"
-    | .func _ _ => "func" | .float _ => "float" | .param _ => "tparam" | .tvar _ => "tvar" | _ => "scalar-mismatch"
+  | .tag idx ty => if immOK env Γ (.tag idx ty) then none else some "operand:tag-of-non-admitted-enum"
 
 def firstSome {α} (xs : List α) (f : α → Option String) : Option String := xs.findSome? f
 
+/-- why a type is not a value type of the fragment: the kind of the first offending component -/
+def tyReason (env : Env) (t : Ty) : String :=
+  match t with
+  | .struct n =>
+    (match env.getStruct n with
+     | some d =>
+       if !d.generics.isEmpty then "generic-struct"
+       else (match d.fields.find? (fun f => !valTy env f.2) with
+         | some f => (if isClosureEnv n then "closure-env" else "struct") ++ "-with-" ++ tyClass f.2 ++ "-field"
+         | none => if isClosureEnv n then "closure-env" else "struct")
+     | none => "unknown-struct")
+  | .enum n =>
+    (match env.getEnum n with
+     | some d =>
+       if !d.generics.isEmpty then "generic-enum"
+       else (match (d.variants.flatMap (·.2)).find? (fun t => !valTy env t) with
+         | some t => "enum-with-" ++ tyClass t ++ "-payload"
+         | none => "enum")
+     | none => "unknown-enum")
+  | t => tyClass t
+
 mutual
-def reasonC (env : Env) (file : AFile) (G : List String) (Γ : Ctx) : CExpr → Option String
-  | .imm i => immReason Γ i
-  | .un op e ty => (immReason Γ e).orElse fun _ => if unOK op e.ty ty then none else some "operator:unary-type"
+def reasonC (env : Env) (file : AFile) (G : List String) (Γ : Ctx) (K : KCtx) : CExpr → Option String
+  | .imm i => immReason env Γ i
+  | .un op e ty => (immReason env Γ e).orElse fun _ => if unOK op e.ty ty then none else some "operator:unary-type"
   | .bin op l r ty =>
-    ((immReason Γ l).orElse fun _ => immReason Γ r).orElse fun _ =>
+    ((immReason env Γ l).orElse fun _ => immReason env Γ r).orElse fun _ =>
       if binOK op l.ty r.ty ty then none else some "operator:binary-type"
   | .call f args ty =>
     if callOK env file G Γ f args ty then none
@@ -347,35 +523,63 @@ def reasonC (env : Env) (file : AFile) (G : List String) (Γ : Ctx) : CExpr → 
         else if (builtinSig name).isSome then some "call:builtin-args"
         else match file.find? (·.name == name) with
           | some _ => if G.contains name then
-              ((firstSome args (immReason Γ)).orElse fun _ => some "call:user-fn-args") else some "call:callee-outside-fragment"
+              ((firstSome args (immReason env Γ)).orElse fun _ => some "call:user-fn-args") else some "call:callee-outside-fragment"
           | none => some ("call:other-builtin:" ++ name)
       | _ => some "call:non-variable-callee"
   | .ite c t e ty =>
-    ((immReason Γ c).orElse fun _ => reasonA env file G Γ t).orElse fun _ =>
-      (reasonA env file G Γ e).orElse fun _ =>
+    ((immReason env Γ c).orElse fun _ => reasonA env file G Γ K t).orElse fun _ =>
+      (reasonA env file G Γ K e).orElse fun _ =>
         if scalarEq c.ty .bool && scalarEq (aTy t) ty && scalarEq (aTy e) ty then none else some "if:type"
   | .while c b ty =>
-    ((reasonA env file G Γ c).orElse fun _ => reasonA env file G Γ b).orElse fun _ =>
+    ((reasonA env file G Γ K c).orElse fun _ => reasonA env file G Γ K b).orElse fun _ =>
       if scalarEq (aTy c) .bool && scalarEq (aTy b) .unit && scalarEq ty .unit then none else some "while:type"
-  | .constr (.enum _ _ _) _ _ => some "node:enum-constructor"
+  | .constr (.enum tn vname vi) args ty =>
+    if fragC env file G Γ K (.constr (.enum tn vname vi) args ty) then none
+    else (firstSome args (immReason env Γ)).orElse fun _ => some ("node:enum-constructor(" ++ tyReason env (.enum tn) ++ ")")
   | .constr (.struct n) args ty =>
-    if fragC env file G Γ (.constr (.struct n) args ty) then none
-    else (firstSome args (immReason Γ)).orElse fun _ =>
-      some (if isClosureEnv n then "node:closure-env-constructor(field types)" else "node:struct-constructor(generic or field types)")
+    if fragC env file G Γ K (.constr (.struct n) args ty) then none
+    else (firstSome args (immReason env Γ)).orElse fun _ => some ("node:struct-constructor(" ++ tyReason env (.struct n) ++ ")")
   | .tuple _ _ => some "node:tuple"
   | .array _ _ => some "node:array"
-  | .matchE _ _ _ _ => some "node:match"
+  | .matchE s arms d ty =>
+    if fragC env file G Γ K (.matchE s arms d ty) then none
+    else (immReason env Γ s).orElse fun _ =>
+      match s.ty with
+      | .enum n =>
+        (match s with
+         | .var x _ =>
+           if !(goodEnums env).contains n then some ("match:scrutinee:" ++ tyReason env (.enum n))
+           else ((reasonArms env file G Γ K (some x) arms).orElse fun _ => reasonD env file G Γ K d).orElse fun _ => some "match:enum-arms"
+         | _ => some "match:enum-scrutinee-not-a-variable")
+      | .unit =>
+        ((reasonArms env file G Γ K none arms).orElse fun _ => reasonD env file G Γ K d).orElse fun _ => some "match:unit-arms"
+      | sty =>
+        if !switchTy sty then some ("match:scrutinee:" ++ tyClass sty)
+        else ((reasonArms env file G Γ K none arms).orElse fun _ => reasonD env file G Γ K d).orElse fun _ => some "match:literal-arms"
   | .cget e c idx ty =>
-    if fragC env file G Γ (.cget e c idx ty) then none
-    else (immReason Γ e).orElse fun _ =>
-      some (match c with | .struct _ => "node:field-get(" ++ immReason.tyClass ty ++ ")" | .enum _ _ _ => "node:enum-field-get")
+    if fragC env file G Γ K (.cget e c idx ty) then none
+    else (immReason env Γ e).orElse fun _ =>
+      some (match c with
+        | .struct _ => "node:field-get(" ++ tyClass ty ++ ")"
+        | .enum tn _ _ =>
+          if !(goodEnums env).contains tn then "node:enum-field-get(" ++ tyReason env (.enum tn) ++ ")"
+          else "node:enum-field-get(variant-not-fixed-by-an-arm)")
   | .toDyn _ _ _ _ => some "node:to-dyn"
   | .dynCall _ _ _ _ _ => some "node:dyn-call"
   | .go _ _ => some "node:go"
   | .proj _ _ _ => some "node:tuple-proj"
-def reasonA (env : Env) (file : AFile) (G : List String) (Γ : Ctx) : AExpr → Option String
-  | .ret c => reasonC env file G Γ c
-  | .letE x v b _ => (reasonC env file G Γ v).orElse fun _ => reasonA env file G ((x, v.annTy) :: Γ) b
+def reasonA (env : Env) (file : AFile) (G : List String) (Γ : Ctx) (K : KCtx) : AExpr → Option String
+  | .ret c => reasonC env file G Γ K c
+  | .letE x v b _ => (reasonC env file G Γ K v).orElse fun _ => reasonA env file G ((x, v.annTy) :: Γ) (eraseK K x) b
+def reasonArms (env : Env) (file : AFile) (G : List String) (Γ : Ctx) (K : KCtx) (scrut : Option String) : List AArm → Option String
+  | [] => none
+  | .mk lhs body :: rest =>
+    (match scrut, lhs with
+     | some x, .tag idx _ => reasonA env file G Γ ((x, idx) :: K) body
+     | _, _ => reasonA env file G Γ K body).orElse fun _ => reasonArms env file G Γ K scrut rest
+def reasonD (env : Env) (file : AFile) (G : List String) (Γ : Ctx) (K : KCtx) : ADflt → Option String
+  | .none => none
+  | .some e => reasonA env file G Γ K e
 end
 
 /-- `none` when `inGoFragment`, else the first reason found -/
@@ -383,10 +587,10 @@ def outsideReason (env : Env) (file : AFile) (n : Nat) (G : List String) (closed
   if closed && G.contains f.name then none
   else if !fileOK env file n then some "file:go-function-names-collide-or-reserved"
   else if !(f.params.all (fun p => valTy env p.2)) then
-    some ("signature:parameter:" ++ ((f.params.find? (fun p => !valTy env p.2)).map (fun p => immReason.tyClass p.2)).getD "?")
-  else if !valTy env f.ret then some ("signature:result:" ++ immReason.tyClass f.ret)
+    some ("signature:parameter:" ++ ((f.params.find? (fun p => !valTy env p.2)).map (fun p => tyReason env p.2)).getD "?")
+  else if !valTy env f.ret then some ("signature:result:" ++ tyReason env f.ret)
   else
-    match reasonA env file G (paramCtx f) f.body with
+    match reasonA env file G (paramCtx f) [] f.body with
     | some r => some r
     | none =>
       if !scalarEq (aTy f.body) f.ret then some "signature:result-type"
